@@ -878,6 +878,32 @@ class Lib:
         v = self.eng.eval(st, node.args[0])
         return VStream(self.stream_model().stream_of(st, v))
 
+    def sp_dictkey(self, st, node):
+        """j-th key of a dict in iteration order"""
+        from .models import KSEQ
+        d = self.eng.eval(st, node.args[0])
+        j = self.eng.eval(st, node.args[1]).t
+        return VU(KSEQ(d.dom, j))
+
+    def sp_dictlen(self, st, node):
+        from .models import KN
+        d = self.eng.eval(st, node.args[0])
+        return VInt(KN(d.dom))
+
+    def sp_digests_list(self, st, node):
+        """the list value [HEX(alg_j, content, len(content))]_j"""
+        from .models import HEX, FLEN
+        eng = self.eng
+        algs = eng.eval(st, node.args[0])
+        content = eng.coerce(st, eng.eval(st, node.args[1]), "U")
+        res = eng.fresh_list(st, "U", "digests")
+        j = z3.Const("j!dl", IntS)
+        st.assume(res.n == algs.n)
+        st.assume(z3.ForAll([j], z3.Implies(z3.And(0 <= j, j < algs.n),
+                                            res.arr[j] == HEX(algs.arr[j], content,
+                                                              FLEN(content)))))
+        return res
+
     def sp_lsum(self, st, node):
         """lsum(list, 'field'[, k]): sum of an int field over the first k
         (default: all) elements of a list of records, current heap"""
@@ -1291,6 +1317,17 @@ class Lib:
                                eng.spec_bool(st, cl), cl.props, label=str(k))
             finally:
                 st.locals = saved_locals
+        if fc.decreases and caller is not None and caller.key == fc.key:
+            # recursion: the measure decreases and stays non-negative
+            st.locals = dict(env)
+            callee_m = eng.spec_eval(st, fc.decreases).t
+            st.locals = dict(saved_locals)
+            for k_, v_ in (st.old["locals"] if st.old else {}).items():
+                if v_ is not None:
+                    st.locals[k_] = v_
+            caller_m = eng.spec_eval(st, fc.decreases).t
+            eng.oblige(st, f"decreases({fc.qualname})", line,
+                       z3.And(callee_m >= 0, callee_m < caller_m), None)
         st.locals = dict(env)
         try:
             for k, cl in enumerate(fc.requires):
